@@ -152,6 +152,8 @@ def gen_cases(rng, tier, scale):
                                   ('{{#each a}}{{{mo0}}}{{/each}}{{m0}}', 'mo0:3mo0:3\x01zero\x02'), ('{{#if s}}{{{m0}}}{{/if}}{{#if s}}{{m_str s}}{{/if}}', 'zero\x01str:str\x02'),
                                   ('{{{mkw}}}{{s}}', 'kw:\x01str\x02'), ('{{{m0}}}{{{m0}}}{{m0}}', 'zerozero\x01zero\x02')]):
         cases.append(rcase(f'mr{i}', t, DATA, pre=['macros', 'esc 2'], entry=4, kind='fixed', exp=exp, tags=['escape-after-raw-call']))
+    cases.append(rcase('esc1', '{{m_str q}}|{{{m_str q}}}|{{m_str b}}|{{m_json a}}', {'q': 'a=b', 'b': '`x`', 'a': ['k=v', 1]}, pre=['macros'], entry=4, kind='fixed',
+                       exp='str:a&#x3D;b|str:a=b|str:&#x60;x&#x60;|json:[x6b3d76,u1]', tags=['escape']))
     cases.append(rcase('esc0', '{{m_str lt}}|{{{m_str lt}}}', {'lt': '<'}, pre=['macros'], entry=4, kind='fixed', exp='str:&lt;|str:<', tags=['escape']))
     return cases
 
